@@ -80,7 +80,9 @@ Definition map_agrees {V} (eqb : V -> V -> bool) (m : gmap N V) (l : list (N * V
   && forallb (fun kv => match m !! fst kv with Some v => eqb v (snd kv) | None => false end) l.
 
 (** ** refinement of the abstract receiver, on the implementation's observations:
-    every outcome is the abstract outcome, every persisted span state is the abstract span state *)
+    every outcome is the abstract outcome, every persisted span state is the abstract span state,
+    and the call-site table (in the receiver and as persisted) is the table of what the guest announced:
+    every id with the description announced for it last *)
 Fixpoint ok_abstract (h : ahist) (steps : list hstep) (impl : list iobs) : bool :=
   match steps, impl with
   | [], [] => true
@@ -89,8 +91,12 @@ Fixpoint ok_abstract (h : ahist) (steps : list hstep) (impl : list iobs) : bool 
       match i, o with
       | IRecv oi _ snp, Some oa =>
           outcome_eqb oi oa && map_agrees span_data_eqb (a_spans (ah_cur h')) (sn_spans snp)
-      | IPersist _ sp _ _ _, None => map_agrees span_data_eqb (a_spans (ah_cur h')) sp
-      | IDrop _ _ snp, None => map_agrees span_data_eqb (a_spans (ah_cur h')) (sn_spans snp)
+          && map_agrees cs_data_eqb (a_meta (ah_cur h')) (sn_meta snp)
+      | IPersist _ sp md _ _, None =>
+          map_agrees span_data_eqb (a_spans (ah_cur h')) sp && map_agrees cs_data_eqb (a_meta (ah_cur h')) md
+      | IDrop _ _ snp, None =>
+          map_agrees span_data_eqb (a_spans (ah_cur h')) (sn_spans snp)
+          && map_agrees cs_data_eqb (a_meta (ah_cur h')) (sn_meta snp)
       | _, _ => false
       end && ok_abstract h' r ir
   | _, _ => false
